@@ -84,8 +84,12 @@ int main(int argc, char **argv) {
     bool isLib = F.hasFnAttribute("slulib");
     std::vector<Instruction *> W;
     for (auto &B : F) for (auto &I : B) {
-      if (badfp(I.getType())) return refuse("unsupported FP type", &I);
-      for (auto &Op : I.operands()) if (badfp(Op->getType())) return refuse("unsupported FP operand type", &I);
+      /* FP vectors (x86-64 passes {float,float} as <2 x float>) are tolerated for pure data movement only */
+      bool movement = isa<InsertElementInst>(I) || isa<ExtractElementInst>(I) || isa<ShuffleVectorInst>(I) || isa<LoadInst>(I) || isa<StoreInst>(I) || isa<ReturnInst>(I) || isa<PHINode>(I) || isa<BitCastInst>(I) ||
+                      (isa<CallInst>(I) && !(cast<CallInst>(I).getCalledFunction() && cast<CallInst>(I).getCalledFunction()->isIntrinsic())) || (isa<SelectInst>(I) && !isa<FCmpInst>(cast<SelectInst>(I).getCondition()));
+      auto bad = [&](Type *t) { if (!badfp(t)) return false; Type *sc = t->getScalarType(); if (t->isVectorTy() && (sc->isFloatTy() || sc->isDoubleTy()) && movement) return false; return true; };
+      if (bad(I.getType())) return refuse("unsupported FP type", &I);
+      for (auto &Op : I.operands()) if (bad(Op->getType())) return refuse("unsupported FP operand type", &I);
       W.push_back(&I);
     }
     std::set<BasicBlock *> fpBlocks; std::map<BasicBlock *, unsigned> blockLine;
